@@ -194,9 +194,9 @@ type CheckOutcome struct {
 
 // checkFunction verifies one function for a property and appends results.
 func (g *Gen) checkFunction(name string, p *PropConfig, bl *Baseline, tier string, work string, out *CheckOutcome, mu *sync.Mutex) {
-	timeout := 10 * time.Second
+	timeout := 30 * time.Second
 	if tier == "thorough" {
-		timeout = 40 * time.Second
+		timeout = 90 * time.Second
 	}
 	fn := g.funcs[baseFuncName(name)]
 	if fn == nil {
